@@ -16,6 +16,8 @@ Static clauses decided (necessary conditions of C20):
          populate_criteria_list(where_list, ...), where_list into the UPDATE ast, optimistic_values into the bound values,
          and both into the SQL cache key; the only exemption is `not optimistic session or obj in cache.for_update`.
  CHECK   after executing the UPDATE, `cursor.rowcount == 0` in an optimistic session throws OptimisticCheckError.
+ ABORT   "the later session fails with an error and commits none of its changes": the module-level commit() flushes every database of the
+         session (that is where OptimisticCheckError is raised) before it commits any (rules shared with C17-ABORT).
  OWNBITS the bit recorded for an attribute of object X is looked up in X's OWN bit table (X._bits_except_volatile_ -- per
          concrete class): attributes declared in a subclass have no bit in the base entity's table, so a mask computed from the
          entity a query iterates over silently drops them, and a value the session selected on is left out of the optimistic
@@ -88,6 +90,9 @@ def run(ctx):
                    'their reads are not recorded and they are left out of the optimistic check' % (owner, sorted(recvs - {owner}), owner), node=a,
                    expected='%s._bits_except_volatile_' % owner)
     ctx.floor('C20-OWNBITS', nown, 4, 'statements adding bits to _rbits_')
+    # ---------------------------------------------------------------- ABORT (shared with C17): a failed check commits nothing, in any database of the session
+    from . import C17
+    C17.global_commit_rules(ctx, P='C20-ABORT')
     # ---------------------------------------------------------------- CRIT
     cc = repo.fn(CORE, 'Entity._construct_optimistic_criteria_')
     loops = [s for s in walk_no_nested(cc.node) if isinstance(s, ast.For)]
